@@ -18,7 +18,13 @@ import (
 	"time"
 )
 
-const VerifDir = "/verif"
+// VerifDir is the verification root (the directory holding MANIFEST.json); bin/check exports it.
+var VerifDir = func() string {
+	if d := os.Getenv("VERIF_DIR"); d != "" {
+		return d
+	}
+	return "/verif"
+}()
 
 // Violation is one property violation, already shrunk / canonicalised by the check that found it.
 type Violation struct {
